@@ -22,7 +22,8 @@ ASSUMPTIONS = ['model of the parser stack validated only by this correspondence'
                'of the real code is only guarded by the per-case timeout of the correspondence']
 PARTIAL = ['C06_prefix (the nodes parsed before the first strict error are still returned) is proved in Coq for valid content '
            'that is a document of the CORE grammar of C02 (Doc/DocGrammar.v; all such documents, all contexts) written at top '
-           'level: C06_prefix_closing_partial (document, then a stray } / \\) / \\] / \\end{x}, then ANY garbage: the tolerant '
+           'level: C06_prefix_closing_partial (document, then a stray } / \\) / \\] / \\end{x} - stray_wf excludes $ and $$ '
+           '(k <> MDollar, k <> MDollars): they are not closing tokens, after a document they open a formula -, then ANY garbage: the tolerant '
            'result is EXACTLY the document\'s node list tree_of, trailing whitespace included, reader right after the token), '
            'C06_prefix_partial / C06_prefix_items_partial (document, then ANY continuation that does not start with a letter or '
            'whitespace when the document has no trailing whitespace; needs ctx_wf: the result is a node list that begins with '
